@@ -1,7 +1,10 @@
-import Probe.Frame
+import Core.Frame
+set_option linter.unusedSectionVars false
 namespace Sodg
 
-theorem inv_joinGrp (g g' : G) (v b : Nat) (hi : Inv g) (hv : v < cap g) (ht : tag g v = 1)
+variable {L D : Type} [DecidableEq L] [Inhabited D]
+
+theorem inv_joinGrp (g g' : G L D) (v b : Nat) (hi : Inv g) (hv : v < cap g) (ht : tag g v = 1)
     (hb2 : 2 ≤ b) (hb16 : b < 16) (h : joinGrp g v b = some g') : Inv g' := by
   unfold joinGrp at h
   split at h
